@@ -141,3 +141,50 @@ func (n *RefNode) Walk(f func(*RefNode)) {
 	n.Left.Walk(f)
 	n.Right.Walk(f)
 }
+
+// Descend returns the nodes visited when walking from the root towards a leaf position (root first). The walk ends
+// at the first node whose path is not a proper prefix-compatible ancestor of target (like the real traversal does),
+// i.e. at the leaf for a present key, or at the node where an absent key would be inserted.
+func (n *RefNode) Descend(target Bits) []*RefNode {
+	var path []*RefNode
+	cur := n
+	for cur != nil {
+		path = append(path, cur)
+		if cur.Left == nil {
+			return path
+		}
+		// cur is an inner node with path = common prefix; does target still follow it?
+		p := cur.Path
+		if len(p) > len(target) || !bytes.Equal(p, target[:len(p)]) {
+			return path
+		}
+		if target[len(p)] == 0 {
+			cur = cur.Left
+		} else {
+			cur = cur.Right
+		}
+	}
+	return path
+}
+
+// ProofNode mirrors lib.Node's proof fields.
+type ProofNode struct {
+	Key, Value []byte
+	Bitmask    int32
+}
+
+// ProofFromPath builds a proof in canopy's format that starts at path[len(path)-1] (which may be an inner node) and
+// lists the sibling of every node on the way up: Bitmask 0 = sibling is the left child, 1 = sibling is the right child.
+func ProofFromPath(path []*RefNode) []ProofNode {
+	last := path[len(path)-1]
+	out := []ProofNode{{Key: last.Key, Value: last.Value}}
+	for i := len(path) - 1; i > 0; i-- {
+		parent, node := path[i-1], path[i]
+		if parent.Left == node {
+			out = append(out, ProofNode{Key: parent.Right.Key, Value: parent.Right.Value, Bitmask: 1})
+		} else {
+			out = append(out, ProofNode{Key: parent.Left.Key, Value: parent.Left.Value, Bitmask: 0})
+		}
+	}
+	return out
+}
